@@ -92,7 +92,7 @@ func TestVerif_C12_Tbtc(t *testing.T) {
 	r := verifkit.Start(t, "C12", "tbtc")
 	defer r.Finish()
 	r.SetRule("exhaustive grids. Coordination follower: seat layouts (5 seats 2/2/1 interleaved, 6 seats 3/2/1; thorough adds 9 seats 4/3/1/1) x follower operator x leader operator (!= follower) x claimed index {0,1..n,n+1,255} x sender key {each operator, outsider, truncated, empty} x coordination block {own, other} x wallet {own, other} x proposal {allowed, not allowed}. Signing-done listener: layouts (adds 3 seats one operator) x claimed index x sender key x signed message {own, other} x attempt {own, other} x end block {<= timeout, > timeout} x signature {present, nil} x attempt members {all, without the claimed member}. One run per case on a scripted channel; non-trivial = claimed index not held by the sender key, or foreign window/wallet/attempt/message")
-	r.Assume("local_v1 signing maps a public key to the hex of its bytes; the signing-done listener documents no own-index and no attempt-membership filter (the latter is C35's subject and only counted here)")
+	r.Assume("local_v1 signing maps a public key to the hex of its bytes; the signing-done listener documents no own-index filter; a confirmation of a member outside the attempt must be ignored (isValidDoneMessage)")
 
 	lc := Connect()
 	signing := lc.Signing()
@@ -397,6 +397,10 @@ func TestVerif_C12_Tbtc(t *testing.T) {
 										legit, why = false, "other-message"
 									case att != "own":
 										legit, why = false, "other-attempt"
+									case members == "without-claimed":
+										// only members included in the attempt may confirm it
+										// (documented in isValidDoneMessage since the C35 fix)
+										legit, why = false, "not-attempt-member"
 									case eb != "in-time":
 										legit, why = false, "end-block-after-timeout"
 									case sig != "present":
